@@ -156,7 +156,7 @@ CHECKS = {
              "already present as an equal value under the single-value guard), everything the accumulator held is kept, and nothing else appears "
              "(addOne_general; built on C09's re-creation lemmas); unified() of documents and bundles compared with an independent specification "
              "(union of attributes, first-occurrence order, ProvException iff formal conflict), idempotence, source unchanged. On the heap (Props/C08D): c08_mergeGroup_content (one fresh cell holding exactly the union of the group under the first member's kind and identifier; no existing cell written), c08_mergeAll_content and c08_unifiedRecords_content (the merge table maps every member of every group to such a record; the result is placeMerged of that table). End to end (Props/C08E): the reachable invariants are kept by the merge pass, so ProvBundle.unified() fills one new container with == copies, in order, of the placed list (c08_unifiedBundle_content; c08_unifiedBundle_reachable for every history of the public mutators without a prov:collection attribute object). ProvDocument.unified() (Props/C08F): c08_unifiedDoc_top - the new document's own records are == copies of the placed list and the loop over the bundles leaves them and every record cell alone (unifiedGo_keeps).",
-        note=A_COMMON + " Known finding C08-1: unified() registers namespaces in a source bundle. Identified membership records are not claimed.",
+        note=A_COMMON + " Identified membership records are not claimed.",
         technique="Lean 4 list lemmas on the placement pass + op-sequence correspondence + independent unification spec",
         design="§4.C08"),
     "C09": dict(
@@ -192,7 +192,7 @@ CHECKS = {
              "allocating exporters flattened()/add_record sequences leave every pre-existing container, manager and record cell unchanged "
              "(c13_addRecords_frame, c13_flattened_frame). On the real code: full observation before/after every exporter and option "
              "combination in random orders, text exports twice and on a twin built by the same calls, RDF graph isomorphism. unified() (Props/C13B): c13_unified_frame / c13_unified_content - every container cell (records and order, identifier index, bundle table, identifier) and every record cell that existed is unchanged after ProvDocument.unified(), whether it succeeds or raises.",
-        note=A_COMMON + " Known finding C13-1 (= C08-1): unified() registers namespaces in a source bundle. Repeatability across processes is not claimed.",
+        note=A_COMMON + " Repeatability across processes is not claimed.",
         technique="Lean 4 frame proofs (exporters as pure/allocating heap functions) + before/after observation oracle",
         design="§4.C13"),
     "C01": dict(
